@@ -57,6 +57,7 @@ Theorem tcp_header_agree bs : bytes_ok bs = true ->
   | RHdr hl tot code tok =>
       tcp_decode_header bs = Ok {| h_len := hl; h_mlen := tot; h_code := code; h_tok := tok |}
       /\ 0 <= hl <= tot /\ hl <= blen bs /\ tot < W32 /\ 0 <= code < 256
+      /\ 2 <= hl /\ blen tok <= 8 /\ bytes_ok tok = true
   end.
 Proof.
   intros Hb. unfold ref_tcp_header, tcp_decode_header.
@@ -94,7 +95,8 @@ Proof.
     - apply Z.eqb_neq in E15. specialize (He16 E15). lia. }
   rewrite blen_cons in Lr.
   unfold u32, W32. repeat rewrite Z.mod_small by lia.
-  split; [f_equal; f_equal; lia|]. unfold W32. repeat split; try lia.
+  assert (Hbt : bytes_ok tok = true) by (rewrite E2 in Hb2; apply bytes_ok_app in Hb2; tauto).
+  split; [f_equal; f_equal; lia|]. unfold W32. repeat split; try lia; exact Hbt.
 Qed.
 
 Lemma bytes_ok_firstn n d : bytes_ok d = true -> bytes_ok (firstn n d) = true.
@@ -122,7 +124,7 @@ Proof.
   destruct (ref_tcp_header messageMaxLen bs) as [| |hl tot code tok].
   - rewrite H. cbn [bind]. rej.
   - destruct H as [e [H1 H2]]. rewrite H1. cbn [bind]. exists e. split; [reflexivity|]. destruct H2 as [->| ->]; discriminate.
-  - destruct H as (H & Hhl & Hle & Htot & Hcode). rewrite H. cbn [bind h_mlen h_len].
+  - destruct H as (H & Hhl & Hle & Htot & Hcode & _). rewrite H. cbn [bind h_mlen h_len].
     replace (u32 (blen bs)) with (blen bs) by (unfold u32; rewrite Z.mod_small by lia; reflexivity).
     destruct (blen bs <? tot) eqn:Es; [rej|]. apply Z.ltb_ge in Es.
     rewrite sl_to_ok by lia. cbn [bind].
@@ -163,8 +165,8 @@ Theorem tcp_retry_terminates bs cap : bytes_ok bs = true -> blen bs < W32 -> 0 <
   pool_decode (pool_fuel bs) tcp_decode cap bs <> Fuel.
 Proof.
   intros Hb Hl Hc. apply pool_decode_terminates; [| |exact Hc].
-  - intros c E. pose proof (tcp_agree c bs Hb Hl) as A. destruct (ref_tcp messageMaxLen bs) as [[m tot]|].
+  - intros c _ E. pose proof (tcp_agree c bs Hb Hl) as A. destruct (ref_tcp messageMaxLen bs) as [[m tot]|].
     + destruct A as [A|[_ A]]; [rewrite A in E; discriminate|exact A].
     + destruct A as [e [A AC]]. rewrite A in E. injection E as ->. apply AC. reflexivity.
-  - intros c E. destruct (tcp_total c bs Hb Hl) as [[m [n T]]|[e T]]; rewrite T in E; discriminate.
+  - intros c _ E. destruct (tcp_total c bs Hb Hl) as [[m [n T]]|[e T]]; rewrite T in E; discriminate.
 Qed.
